@@ -99,5 +99,56 @@ func verifyLoad(h *hist, L *ipfslog.IPFSLog, loader int, id cid.Cid) {
 		"an identifier that was returned loads to exactly the log state at the moment it was produced")
 }
 
+// H_C17_denied: the same writer's log exists twice over one store (a restart / second device at an earlier
+// state); the second instance's controller denies appends. Whatever a denied append does to the store, no
+// block that an earlier successful operation returned may disappear and the store must stay causally closed.
+func H_C17_denied() {
+	cfg := histParams()
+	cfg.realIO = true
+	cfg.R, cfg.W = 1, 1
+	h := newHist(cfg)
+	dag := h.api.Dag().(*memDag)
+	n := 2 + vx.Choice("n", vx.Param("MAXN", 2))
+	L := h.logs[0]
+	var es []iface.IPFSLogEntry
+	for i := 0; i < n; i++ {
+		e, err := L.Append(ctx, []byte{'q', byte('0' + i)}, nil)
+		vx.Assert("C17", err == nil, "append succeeds")
+		if err != nil {
+			return
+		}
+		es = append(es, e)
+	}
+	m, err := L.ToMultihash(ctx)
+	vx.Assert("C17", err == nil, "publication succeeds")
+	// the earlier state: all but the last k entries, same identity, same log id, denying controller
+	k := 1 + vx.Choice("behind", n-1)
+	old := newLogOpt(h.api, h.ids[0], &ipfslog.LogOptions{ID: "X", IO: h.io(), SortFn: h.sortFn(), Entries: orderedMapOf(es[:n-k]), AccessController: denyAll{}})
+	payload := es[n-k].GetPayload()
+	if vx.Choice("samePayload", 2) == 0 {
+		payload = []byte("something else")
+	} else {
+		vx.Cover("duplicate-denied-append")
+	}
+	_, derr := old.Append(ctx, payload, nil)
+	vx.Assert("C17", derr != nil, "the denied append reports an error")
+	for _, e := range es {
+		_, ok := dag.nodes[hstr(e)]
+		vx.Assert("C17", ok, "a block that an earlier successful append returned is still in the store after a denied append")
+	}
+	ok := true
+	for _, nd := range dag.nodes {
+		for _, l := range nd.Links() {
+			if _, in := dag.nodes[l.Cid.String()]; !in {
+				ok = false
+			}
+		}
+	}
+	vx.Assert("C17", ok, "the store is causally closed after a denied append")
+	verifyLoad(h, L, ldManifest, m)
+	vx.Cover("denied-append-checked")
+}
+
 var _ iface.IPFSLogEntry
+var _ = register("H_C17_denied", H_C17_denied)
 var _ = register("H_C17", H_C17)
